@@ -45,7 +45,7 @@ META = {
                     'CONTINUE / other (all three explored)',
                     'non-auth exceptions (bad hex in DATA, non-ASCII command '
                     'bytes) reach the reactor, which closes the connection'],
-    'decided': ['D1 safety of authentication', 'D2 response table',
+    'decided': ['D1 safety of authentication', 'D2 response table (the command word is taken exactly; a mechanism\'s cleanup runs once per exchange, so the reject path always answers)',
                 'D3 limits (rejections - the count is never lowered -, first byte, line length)',
                 'D4 a mechanism answers OK only on its accepting branch '
                 '(cookie: computed hash == received hash, no exception '
@@ -94,6 +94,12 @@ def took_ok_fork(t):
 def run(ctx):
     prog = ctx.prog
     m, inits = build(prog)
+    lossy = m.lossy_dispatch_key()
+    ctx.ob('C06.D2', m.dispatch.qualname, 'command-word-taken-exactly',
+           not lossy, 'the handler is chosen from the command word after it '
+           'was %s: a line that is not a protocol command is answered as if '
+           'it were one (the response table requires ERROR)' % '; '.join(
+               '%s (line %d)' % (t, ln) for ln, t in lossy))
     cls = prog.cls(K)
     rows = m.rows()
     ctx.extra['states'] = len(m.states)
@@ -304,6 +310,7 @@ def run(ctx):
                nontrivial=False)
     _line_mode_limits(ctx)
     _mechanism_acceptance(ctx, mechs)
+    _cleanup_once(ctx, mechs)
     _text_bytes_agreement(ctx, mechs)
     from .c09 import per_instance_registries
     per_instance_registries(ctx, 'C06.D1', ('authentication', 'protocol', 'bus'),
@@ -558,6 +565,68 @@ def _mechanism_acceptance(ctx, mechs):
     if n_ok < 3:
         raise AnalysisError('only %d accepting path(s) found in the '
                             'mechanism classes' % n_ok)
+
+
+def _cleanup_once(ctx, mechs):
+    """The reject path calls current_mech.cancel().  A mechanism whose
+    cancel() undoes something (the cookie mechanism deletes its cookie) under
+    a guard `if self.G:` must clear G wherever that cleanup runs - it also
+    runs from the mechanism's own steps - or the reject path repeats it:
+    the second os.unlink of the keyring file raises out of dataReceived and
+    the wrong response is never answered REJECTED."""
+    prog = ctx.prog
+    n = 0
+    for name_t, cls_t in mechs[1]:
+        c = prog.cls(cls_t[1])
+        cancel = c.methods.get('cancel')
+        if cancel is None:
+            ctx.ob('C06.D2', c.qualname, 'cancel-exists', False,
+                   'mechanism class without cancel(): reject() raises '
+                   'AttributeError')
+            continue
+        selft = ('param', 'self')
+        for p in Interp(prog, exc_edges=False, self_cls=c).run(cancel):
+            for call in p.calls(deep=False):
+                if kind(call[2]) != 'bound' and not (
+                        kind(call[2]) == 'attr' and call[2][1] == selft):
+                    continue
+                tq = call[1] or ''
+                target = prog.all_funcs.get(tq)
+                if target is None or target.cls is None:
+                    continue
+                guards = [cnd[2] for cnd, pol in p.cond
+                          if kind(cnd) == 'attr' and cnd[1] == selft and pol]
+                guards += [cnd[2][2] for cnd, pol in p.cond
+                           if kind(cnd) == 'cmp' and cnd[3] == NONE and
+                           kind(cnd[2]) == 'attr' and cnd[2][1] == selft and
+                           ((cnd[1] == 'is not') == pol)]
+                n += 1
+                if not guards:
+                    ctx.ob('C06.D2', cancel.qualname, 'cleanup-guarded',
+                           False, 'cancel() runs %s unconditionally: after '
+                           'the mechanism\'s own step already ran it, the '
+                           'reject path runs it again' % target.name)
+                    continue
+                g = guards[0]
+                bad = []
+                for tp in Interp(prog, exc_edges=False,
+                                 self_cls=c).run(target):
+                    if tp.outcome == 'raise':
+                        continue
+                    v = tp.state.heap.get((selft, g))
+                    cleared = v is not None and is_const(v) and not v[1]
+                    if not cleared:
+                        bad.append(term_str(v)[:40] if v is not None
+                                   else 'unchanged')
+                ctx.ob('C06.D2', target.qualname, 'cleanup-runs-once:%s' % g,
+                       not bad, '%s is run by cancel() while self.%s is set, '
+                       'and by the mechanism\'s own steps, but does not clear '
+                       'self.%s (%s): a rejected exchange runs it twice - '
+                       'the second deletion of the last cookie raises '
+                       'FileNotFoundError out of dataReceived instead of '
+                       'answering REJECTED' % (target.name, g, g,
+                                               bad[:1]))
+    ctx.extra['mechanism_cleanups'] = n
 
 
 def _text_bytes_agreement(ctx, mechs):
